@@ -30,7 +30,7 @@ inline int tld_class(const Tlds &T, const Consts &C, const Bytes &d) {
     return c ? C.idx(*c) : -1;
 }
 
-inline Facts facts(const Tlds &T, const Consts &C, const Bytes &a) {
+inline Facts facts(const Tlds &T, const Consts &C, const Bytes &a, bool underscore = false) {
     Facts f; f.a = a;
     size_t p = a.rfind('@');
     f.has_at = p != Bytes::npos; f.at = p;
@@ -40,9 +40,9 @@ inline Facts facts(const Tlds &T, const Consts &C, const Bytes &a) {
     f.bracket = !f.D.empty() && f.D[0] == '[';
     if (f.bracket) f.lit = ref::literal(f.D);
     else if (!f.D.empty()) {
-        f.host_ref = f.d_ascii && ref::host_ok(f.D);
+        f.host_ref = f.d_ascii && ref::host_ok(f.D, underscore);
         ToAscii t = to_ascii(f.D); f.conv_rc = t.rc; f.conv_ok = t.rc == IDN2_OK; f.aform = t.out;
-        f.aform_host = f.conv_ok && ref::host_ok(f.aform);
+        f.aform_host = f.conv_ok && ref::host_ok(f.aform, underscore);
         if (f.host_ref) f.cls = tld_class(T, C, f.D);
         if (f.aform_host) f.cls_a = tld_class(T, C, f.aform);
     }
